@@ -48,7 +48,9 @@ EXPLANATION = (
     "eleven nested-length cases, sequences whose items differ in length (five item definitions with optional / callback-length parts, every "
     "presence pattern of 1..4 items incl. the optional part absent in the last item; stand-alone, as flexible tail and behind a length "
     "callback; truncations), error wrapping for every exception class a field can raise (also below nested envelopes and sequence "
-    "items), repeated decodes of one Sequence/envelope (result ownership), message sequences through ONE definition object (eight "
+    "items), the value domain of buffers (bytes / bytearray / memoryview / integer equal to the declared length / other integers / "
+    "bool / float / str / None for a Buf at top level, flexible, nested and in a sequence item: only octet strings are ever encoded), "
+    "repeated decodes of one Sequence/envelope (result ownership), message sequences through ONE definition object (eight "
     "definitions with callback-length spares / buffers / nested envelopes / sequences and optional fields, 4..7 messages each whose "
     "variable parts differ, encoded, decoded and re-encoded in order, in reverse and interleaved; single field objects used again and "
     "again; two objects of one class used alternately), and the toolkit's own definitions (trxd_proto) - and every "
@@ -5046,6 +5048,71 @@ def w_errors(lab, fams):
         fam.fail("a witness definition or its evaluation does not terminate (step budget exhausted)")
 
 
+def _buf_defs():
+    """(label, reference definition, value template, path of the buffer value in the template, declared length | 0)"""
+    top = REnv([RInt("Uint", "a"), RBuf("key", 4), RBuf("rest")])
+    nested = REnv([RInt("Uint", "a"), REnvF(REnv([RBuf("addr", 6), RInt("Uint", "t")], name="Inner"), "in", 7)], name="Outer")
+    one = REnv([RBuf("flag", 1), RBuf("rest")])
+    seq = REnv([RInt("Uint", "a"), RSeqF(REnv([RBuf("id", 2)], check_len=False, name="Item"), "s")], name="Outer")
+    return [("key", top, {"a": 7, "key": None, "rest": b"\xaa\xbb"}, ("key",), 4),
+            ("rest", top, {"a": 7, "key": b"\xde\xad\xbe\xef", "rest": None}, ("rest",), 0),
+            ("addr", nested, {"a": 1, "in": {"addr": None, "t": 9}}, ("in", "addr"), 6),
+            ("flag", one, {"flag": None, "rest": b"xyz"}, ("flag",), 1),
+            ("id", seq, {"a": 2, "s": [{"id": b"\x01\x02"}, {"id": None}]}, ("s", 1, "id"), 2)]
+
+
+def _put(tmpl, path, val):
+    v = clone_vals(tmpl)
+    cur = v
+    for k in path[:-1]:
+        cur = cur[k]
+    cur[path[-1]] = val
+    return v
+
+
+def w_bufvals(lab, fams):
+    """C16.R10 decides the clause `unencodable ... buffer values are rejected with the codec's own EncodeError` together with
+    the buffer half of `decoding the encoding of in-range values returns those values`: the value domain of a Buf is octet
+    strings.  Every witness is the public Envelope.to_bytes() folded over a definition with the buffer at top level, inside a
+    nested envelope, and inside a sequence item; the buffer value ranges over type witnesses.  An octet string (bytes,
+    bytearray) of the declared length is emitted unchanged; a value that is not an octet string (an integer equal to the
+    declared length, 0, 1, other small integers, True, a float, str, None) is rejected by an exception - no octets
+    leave the envelope (were an integer n emitted as n zero octets, decode(encode(v)) != v).  The class of the rejection is
+    EncodeError where the field's own length check sees the value; TypeError is accepted where the pinned code lets the
+    concatenation reject it.  A memoryview is either emitted as its octets or rejected."""
+    fam = Family("C16.R10", "Buf", "the value domain of a buffer is octet strings: bytes / bytearray of the declared length are emitted "
+                 "unchanged, a value that is not an octet string (integer, bool, float, str, None) is rejected and never turned into octets")
+    fams.append(fam)
+    rej = ("raise", "EncodeError", "TypeError")
+    try:
+        for nm, ref, tmpl, path, ln in _buf_defs():
+            e = ref.build(lab)
+            n = ln or 3
+            good = bytes(range(0x41, 0x41 + n))
+            want = ref_out(lambda: ref.encode(_put(tmpl, path, good)))
+            if want[0] != "ok":
+                raise MachUnknown("reference model rejects an octet string for %r" % (ref,))
+            for label, val in (("bytes", good), ("bytearray", bytearray(good))):
+                fam.check("%r.to_bytes() with %s = %s of %d octets" % (ref, nm, label, n), lab.e_enc(e, _put(tmpl, path, val)), want)
+            got = lab.e_enc(e, _put(tmpl, path, memoryview(good)))
+            if got == want or (got[0] == "raise" and got[1] in rej[1:]):
+                fam.ok()
+            else:
+                fam.fail("%r.to_bytes() with %s = memoryview of %d octets: codec %s, documented behaviour %s or a rejection" % (
+                    ref, nm, n, fmt_out(got), fmt_out(want)))
+            ints = [ln, 0, 1, 2, 255] if ln else [0, 1, 3, 16, 255]
+            bad = [("the integer %d%s" % (i, " (equal to the declared length)" if ln and i == ln else ""), i) for i in dict.fromkeys(ints)]
+            bad += [("True", True), ("the float %r" % float(n), float(n)), ("the str %r" % ("s" * n), "s" * n), ("None", None)]
+            for label, val in bad:
+                fam.check("%r.to_bytes() with %s = %s, not an octet string" % (ref, nm, label), lab.e_enc(e, _put(tmpl, path, val)), rej)
+    except MachUnknown as ex:
+        fam.unknown = str(ex)
+    except PyRaise as ex:
+        fam.fail("a witness definition or its evaluation raises %s outside any modelled outcome" % ex.cls_name)
+    except MachTimeout:
+        fam.fail("a witness definition or its evaluation does not terminate (step budget exhausted)")
+
+
 def w_presence(lab, fams):
     m = lab.m
     fam = Family("C16.R5", "Field", "presence protocol: a field is absent exactly when get_pres(vals) is the bool False (any other result, also a falsy "
@@ -5554,7 +5621,7 @@ def w_toolkit_defs(lab, fams):
             fam.fail("evaluating the definition does not terminate (step budget exhausted)")
 
 
-WITNESS_GROUPS = (w_bits, w_ints, w_length, w_nesting, w_errors, w_presence, w_ownership, w_seq_closure, w_reuse, w_toolkit_defs)
+WITNESS_GROUPS = (w_bits, w_ints, w_length, w_nesting, w_errors, w_bufvals, w_presence, w_ownership, w_seq_closure, w_reuse, w_toolkit_defs)
 
 
 def run_witnesses(L, repo):
@@ -5721,6 +5788,14 @@ def commit_witnesses(L, V):
     if not V.error and not r8_open:
         L.floor("C16.R8", "item definitions with an optional / variable part evaluated in sequences", len(r8), 5)
         L.floor("C16.R8", "sequence round trips and truncations evaluated (items of different lengths)", sum(f.n for f in r8), 850)
+    # C16.R10 has no symbolic counterpart either
+    r10 = [f for f in V.fams if f.rule == "C16.R10"]
+    r10_open = [f for f in r10 if f.unknown is not None and f.bad is None]
+    for f in r10_open:
+        L.deficits.append("w_bufvals: the buffer value-domain witnesses could not be evaluated (%s)" % _short_txt(f.unknown, 200))
+    if not V.error and not r10_open and not any(f.bad for f in r10):
+        L.floor("C16.R10", "buffer positions (top level, flexible, nested envelope, one octet, sequence item) evaluated", len(_buf_defs()), 5)
+        L.floor("C16.R10", "buffer value witnesses encoded through the public Envelope.to_bytes()", sum(f.n for f in r10), 55)
     # C16.R9: the code analysis (r9_state) decides where nothing is kept between messages; what it leaves open needs these
     r9 = [f for f in V.fams if f.rule == "C16.R9"]
     if not V.error and r9 and not any(f.unknown is not None and f.bad is None for f in r9):
